@@ -603,3 +603,23 @@ Proof.
 Qed.
 
 End Rearranged.
+
+(* ------------------------------------------------------------------ (3') with a cache written by write_query_markers *)
+Theorem columns_aligned (A : Type) tb t refg qg c qgenes qnorm (m : rmat A) parent a :
+  write_query_markers tb refg qg = MOk c ->
+  assemble_reference A t (c_groups c) refg qg qgenes qnorm m parent = ROk a ->
+  exists ri qi l, tget parent (c_groups c) = Some (ri, qi) /\
+    In (parent, l) tb /\ Permutation l (m_genes (a_ref a)) /\ a_qgenes a = m_genes (a_ref a) /\
+    forall j r s, nth_error ri j = Some r -> nth_error qi j = Some s ->
+      exists g, nth_error (m_genes (a_ref a)) j = Some g /\ nth_error (a_qgenes a) j = Some g /\
+                nth_error refg r = Some g /\ nth_error qg s = Some g.
+Proof.
+  intros Wq H.
+  destruct (assemble_inv A _ _ _ _ _ _ _ _ _ H)
+    as (kids & asg & ri & qi & _ & _ & Eg & Eq & Er & Eqr & _).
+  destruct (pairing_by_name tb refg qg c parent ri qi Wq (tget_In _ _ _ Eg)) as (l & names & Hin & HP & _ & Nr & Nq).
+  assert (names = m_genes (a_ref a)) by congruence. subst names.
+  exists ri, qi, l. repeat (split; [assumption|]).
+  intros j r s Hr Hs. destruct (names_at_columns refg qg ri qi _ j r s Nr Nq Hr Hs) as (g & G1 & G2 & G3).
+  exists g. rewrite Eqr. tauto.
+Qed.
